@@ -41,6 +41,11 @@ def gen_case(rng):
         c["span_hours"] = 24 * rng.randint(1, 20) + rng.choice([0, 0, 5, 13])
         c["volume"] = round(rng.uniform(1, 1000), 2)
         c["hours"] = sorted(rng.sample(range(24), rng.randint(1, 8)))
+        r_ = rng.random()
+        if r_ < 0.08:
+            c["hours"] = c["hours"] + [rng.choice(c["hours"])]                  # a repeated hour: refused
+        elif r_ < 0.16:
+            c["hours"] = c["hours"] + [rng.choice([24, 25, -1, 48])]              # not an hour of the day: refused
     else:
         c["span_hours"] = rng.randint(2, 200)
         c["a"], c["b"] = rng.randint(0, 50), rng.randint(0, 500)
@@ -106,11 +111,19 @@ def lean_request(c):
     return None
 
 
+def invalid_hours(hours):
+    return len(set(hours)) != len(hours) or any(h < 0 or h > 23 for h in hours) or not hours
+
+
 def oracle(c, st, r):
     """C20 stated directly on the real result"""
+    fn = c["fn"]
+    if fn == "daily" and invalid_hours(c["hours"]):
+        # a daily volume cannot be spread over a repeated hour or an hour that does not exist: the call is refused
+        # (since the repair of finding D12; before it such a list silently lost a share of the volume)
+        return None if st != "ok" else "daily-volume-sum:duplicate-or-out-of-range-hours"
     if st != "ok":
         return f"raises:{r}"
-    fn = c["fn"]
     s = start_epoch(c)
     n_exp = len(c["vals"]) if fn in ("list", "srclist") else (c["span_hours"] + 1 if fn in ("freq", "daily") else c["span_hours"])
     if len(r["ks"]) != n_exp:
@@ -180,6 +193,9 @@ def run_shard(args):
         if a is not None:
             if "bad" in a:
                 out["disagreements"].append({"why": "driver: " + a["bad"], "case": c})
+            elif "err" in a:
+                if st == "ok":
+                    out["disagreements"].append({"why": f"model refuses ({a['err']}), real code accepts", "case": c})
             elif st != "ok":
                 out["disagreements"].append({"why": f"real raises {r}", "case": c})
             elif a["ks"] != r["ks"]:
